@@ -147,5 +147,37 @@ let apispec_case (line : string) : string =
        | _ -> if t = "?" then "ok" else "malformed answer " ^ t)
   | _ -> "malformed line"
 
-let engines = [ "errmsg", run_case; "errmsg-spec", spec_case; "errmsg-apispec", apispec_case;
+(* pure-libaddrxlat histories: "<kind> <status> <prev hex|-> <new hex|-> [<msg hex>]"
+   kind: e = entry point that clears first, v = void setter, E = addrxlat_ctx_err, C = clear_err *)
+let axspec_case (line : string) : string =
+  if line = "AXENTRIES" then
+    String.concat " " (Stdlib.List.map (fun e ->
+      let nm = function AxLaunch -> "addrxlat_launch" | AxStep -> "addrxlat_step" | AxWalk -> "addrxlat_walk"
+        | AxSysOsInit -> "addrxlat_sys_os_init" | AxOp -> "addrxlat_op"
+        | AxFulladdrConv -> "addrxlat_fulladdr_conv" | AxCtxErr -> "addrxlat_ctx_err" in
+      nm e ^ ":" ^ (match ax_clears e with ClearsFirst -> "first" | ClearsVia e' -> "via-" ^ nm e'
+                                          | SetsOnly -> "sets")) ax_entries)
+  else match words line with
+  | kind :: st :: prev :: nw :: rest ->
+      let pb = bytes_of_hex prev and nb = bytes_of_hex nw in
+      (match kind with
+       | "e" ->
+           let z = z_of_hex st in
+           if not (addrxlat_doc z) then "status " ^ st ^ " is not a documented addrxlat status"
+           else if z = BinNums.Z0 && nb <> [] then "success, but an error string is left behind"
+           else if z <> BinNums.Z0 && nb = [] then "failure status " ^ st ^ " with an empty error string"
+           else if not (ax_status_msg_ok (z, nb <> [])) then "contract broken"
+           else "ok"
+       | "v" -> if ErrSpec.list_eqb pb nb then "ok" else "a setter changed the error string"
+       | "C" -> if nb = [] then "ok" else "addrxlat_ctx_clear_err left a string behind"
+       | "E" ->
+           let z = z_of_hex st in
+           let msg = match rest with [m] -> bytes_of_hex m | _ -> [] in
+           if z = BinNums.Z0 then (if ErrSpec.list_eqb pb nb then "ok" else "addrxlat_ctx_err(OK) changed the string")
+           else if ErrSpec.list_eqb nb (ErrSpec.chain_step pb msg) then "ok"
+           else "addrxlat_ctx_err did not prepend its message to the chain"
+       | _ -> "malformed kind")
+  | _ -> "malformed line"
+
+let engines = [ "errmsg-axspec", axspec_case; "errmsg", run_case; "errmsg-spec", spec_case; "errmsg-apispec", apispec_case;
                 "errmsg-status", status_case; "errmsg-statusspec", statusspec_case ]
